@@ -49,13 +49,18 @@ type Path struct {
 	Blocks []*ssa.BasicBlock
 	Atoms  []Atom
 	AtomAt []int // index into Blocks of the branching block of each atom
-	Evs    []Ev
-	Ret    *ssa.Return // nil when the path ends in a panic or loops back
-	End    string      // "return", "panic", "loop"
-	D      *D
-	frames map[*ssa.Function]*frame
-	top    *frame
-	p      *Prog
+	// execution order of calls/stores/branches on the path (helper frames in
+	// place), and the position at which each atom was assumed
+	order    []ssa.Instruction
+	atomStep []int
+	stepOf   map[ssa.Instruction]int
+	Evs      []Ev
+	Ret      *ssa.Return // nil when the path ends in a panic or loops back
+	End      string      // "return", "panic", "loop"
+	D        *D
+	frames   map[*ssa.Function]*frame
+	top      *frame
+	p        *Prog
 }
 
 // MaxPaths bounds the enumeration; exceeding it makes the result incomplete.
@@ -170,6 +175,10 @@ func (p *Prog) Paths(fn *ssa.Function) (paths []*Path, complete bool) {
 		atomAt []int
 		keys   map[string]bool // identity keys → polarity
 		evs    []Ev
+		// execution order of the calls, stores and branches walked so far, and the
+		// position in it at which each atom was assumed
+		order    []ssa.Instruction
+		atomStep []int
 		// snapshots of finished helper frames, for descriptors of their values
 		done map[*ssa.Function]*frame
 	}
@@ -182,7 +191,8 @@ func (p *Prog) Paths(fn *ssa.Function) (paths []*Path, complete bool) {
 			return
 		}
 		pt := &Path{Fn: fn, Blocks: append([]*ssa.BasicBlock{}, st.blocks...), Atoms: append([]Atom{}, st.atoms...), AtomAt: append([]int{}, st.atomAt...),
-			Evs: append([]Ev{}, st.evs...), Ret: ret, End: end, p: p, frames: map[*ssa.Function]*frame{}}
+			Evs: append([]Ev{}, st.evs...), Ret: ret, End: end, p: p, frames: map[*ssa.Function]*frame{},
+			order: append([]ssa.Instruction{}, st.order...), atomStep: append([]int{}, st.atomStep...)}
 		pt.top = copyFrame(top)
 		pt.frames[fn] = pt.top
 		for f, fr := range st.done {
@@ -234,13 +244,18 @@ func (p *Prog) Paths(fn *ssa.Function) (paths []*Path, complete bool) {
 		if !complete {
 			return
 		}
-		nEvs, nDef := len(st.evs), len(fr.defers)
+		nEvs, nDef, nOrd := len(st.evs), len(fr.defers), len(st.order)
 		defer func() {
 			st.evs = st.evs[:nEvs]
 			fr.defers = fr.defers[:nDef]
+			st.order = st.order[:nOrd]
 		}()
 		for i := idx; i < len(b.Instrs); i++ {
 			ins := b.Instrs[i]
+			switch ins.(type) {
+			case *ssa.Call, *ssa.Go, *ssa.Defer, *ssa.Store, *ssa.If, *ssa.MapUpdate, *ssa.Return:
+				st.order = append(st.order, ins)
+			}
 			switch x := ins.(type) {
 			case *ssa.Call:
 				st.evs = append(st.evs, Ev{x, x.Common(), "call", fr})
@@ -336,9 +351,11 @@ func (p *Prog) Paths(fn *ssa.Function) (paths []*Path, complete bool) {
 					disp := p.frameD(fr, false).NormAtom(x.Cond, pol)
 					st.atoms = append(st.atoms, disp)
 					st.atomAt = append(st.atomAt, len(st.blocks)-1)
+					st.atomStep = append(st.atomStep, len(st.order))
 					enter(fr, succ, b, k)
 					st.atoms = st.atoms[:len(st.atoms)-1]
 					st.atomAt = st.atomAt[:len(st.atomAt)-1]
+					st.atomStep = st.atomStep[:len(st.atomStep)-1]
 					if !had {
 						delete(st.keys, key.S)
 					}
@@ -521,6 +538,15 @@ func (pt *Path) PassesThrough(b *ssa.BasicBlock) bool {
 // AtomsBefore returns the atoms assumed on the path before control reached
 // the block of ins.
 func (pt *Path) AtomsBefore(ins ssa.Instruction) []Atom {
+	if s, ok := pt.step(ins); ok && len(pt.atomStep) == len(pt.Atoms) {
+		var out []Atom
+		for i, a := range pt.Atoms {
+			if pt.atomStep[i] <= s {
+				out = append(out, a)
+			}
+		}
+		return out
+	}
 	idx := -1
 	for i, b := range pt.Blocks {
 		if b == ins.Block() {
@@ -538,6 +564,20 @@ func (pt *Path) AtomsBefore(ins ssa.Instruction) []Atom {
 		}
 	}
 	return out
+}
+
+// step is the position of the instruction's first execution on the path.
+func (pt *Path) step(ins ssa.Instruction) (int, bool) {
+	if pt.stepOf == nil {
+		pt.stepOf = map[ssa.Instruction]int{}
+		for i, x := range pt.order {
+			if _, dup := pt.stepOf[x]; !dup {
+				pt.stepOf[x] = i
+			}
+		}
+	}
+	s, ok := pt.stepOf[ins]
+	return s, ok
 }
 
 // HasBefore reports whether atom was assumed before reaching ins.
@@ -701,4 +741,12 @@ func rootAlloc(v ssa.Value) *ssa.Alloc {
 			return nil
 		}
 	}
+}
+
+// Precedes reports whether instruction a is executed before instruction b on
+// the path (first occurrences).
+func (pt *Path) Precedes(a, b ssa.Instruction) bool {
+	sa, oka := pt.step(a)
+	sb, okb := pt.step(b)
+	return oka && okb && sa < sb
 }
